@@ -7,15 +7,17 @@ from ..gen_schema import SchemaGen
 from d42 import validate
 from d42.utils import from_native
 
-MODULE = "D42.Props.C14"
+MODULE = "D42.Props.C14All"
 THEOREMS = ["fromNative_total", "fromNative_refuses", "fromNative_error_kind", "fromNative_accepts",
-            "fromNative_generates", "fromNative_exact"]
+            "fromNative_generates", "fromNative_exact",
+            "fromNative_eq_extracted", "subst_scalar_eq_extracted"]
 FILES = ["D42/Model/Data.lean", "D42/Model/Validate.lean", "D42/Model/Subst.lean", "D42/Model/Gen.lean",
-         "D42/Spec/Conforms.lean", "D42/Props/C02.lean", "D42/Props/C14.lean"]
+         "D42/Spec/Conforms.lean", "D42/Props/C02.lean", "D42/Props/C14.lean",
+         "D42/Model/CheckProg.lean", "D42/Model/SubstProg.lean", "D42/Gen/SubstProg.lean", "D42/Props/SubstProg.lean", "D42/Props/C14All.lean"]
 
 EVIDENCE = dict(
     level="proof",
-    checker_cmd="lake build D42.Props.C14 d42model && lake env lean <#print axioms audit>",
+    checker_cmd="lake build D42.Props.C14All d42model && lake env lean <#print axioms audit>",
     trusted=["Lean kernel; standard axioms", "fromNative model tied to the code by structural comparison of the produced schema"],
     rule="nested plain values (depth<=3/4) and hostile values; probes: copies and every single-step perturbation at every depth; "
          "non-trivial = nested value")
@@ -61,6 +63,11 @@ def same_lenient(v, w):
 
 
 def run(ctx):
+    from .. import extract_substitutor
+    ok, msg = extract_substitutor.run()
+    if not ok:
+        ctx.breakage("translation", "substitutor / from_native extraction failed (d42/utils/_from_native.py or the scalar "
+                     "visit_* methods of d42/substitution/_substitutor.py no longer consist of the recognised idioms): " + msg)
     runner.prove(ctx, MODULE, THEOREMS, FILES)
     from .. import limits
     limits.recursion_probe(ctx, "C14")
